@@ -40,7 +40,7 @@ ASSUMPTIONS = [
 
 def run(ctx: Ctx):
   m = model(ctx)
-  for r in (r1, r2, r3, r4, r5, r6, r8, r9, r10, r11, r12):
+  for r in (r1, r2, r3, r4, r5, r6, r8, r9, r10, r11, r12, r13):
     ctx.guard(r, m)
   ctx.include('R-C11-7', '"a freshly created (empty) state is a neutral element'
               ' on either side": merge combines every accumulated statistic on'
@@ -736,6 +736,33 @@ def r12(ctx: Ctx, m):
   ctx.floor(rule, 1, n)
 
 
+def r13(ctx: Ctx, m):
+  rule = 'R-C11-13'
+  ctx.rule(rule, '"a freshly created (empty) state is a neutral element ... the same result for every grouping": the sub-states of'
+           ' a composite accumulator are DISTINCT objects. No accumulator module builds a container by repeating one freshly'
+           ' constructed object (`(State(),) * n`, `[State()] * n`): repetition copies the reference, every position is the'
+           ' same accumulator, and a column-wise merge pours all columns into it')
+  n = 0
+  hits = 0
+  for ci in m.classes:
+    for name, fi in ci.methods.items():
+      for x in ast.walk(fi.node):
+        if isinstance(x, ast.BinOp) and isinstance(x.op, ast.Mult):
+          for side in (x.left, x.right):
+            if isinstance(side, (ast.Tuple, ast.List)) and len(side.elts) == 1 and isinstance(side.elts[0], ast.Call) and (
+                unparse(side.elts[0].func).split('.')[-1][:1].isupper()):
+              hits += 1
+              ctx.fail(rule, fi, f'{ci.name}.{name}: sub-states are distinct objects',
+                       f'`{unparse(x)[:60]}` in {ci.name}.{name} repeats ONE `{unparse(side.elts[0])}` object: every position of the'
+                       ' container is the same accumulator, so per-column merges / adds all land in it (fresh.merge(s) reports the'
+                       ' mean over all columns in every position)', node=x)
+    n += 1
+  if not hits:
+    anyc = next((c for c in m.classes if c.methods), None)
+    ctx.ok(rule, next(iter(anyc.methods.values())), f'{n} accumulator classes: no container built by repeating one state object', anyc.node)
+  ctx.floor(rule, 10, n)
+
+
 def _is_emptiness(t: ast.AST, flags: set) -> bool:
   while isinstance(t, ast.UnaryOp) and isinstance(t.op, ast.Not):
     t = t.operand
@@ -756,6 +783,8 @@ _R = 'aggregates/rolling_stats.py'
 _U = 'aggregates/utils.py'
 _T = 'aggregates/retrieval.py'
 VARIANTS = [
+    B('tuple-state-grown-by-repeating-one-object', 'aggregates/utils.py',
+      '      self.states = tuple(MeanState() for _ in other.states)', '      self.states = (MeanState(),) * len(other.states)', 'R-C11-13'),
     B('revert-merge-states-without-none-filter', 'aggregates/classification.py',
       "    iter_acc = (state for state in states if state is not None)\n    result = next(iter_acc, None)",
       "    iter_acc = iter(states)\n    result = next(iter_acc)", 'R-C11-12'),
